@@ -66,6 +66,7 @@ func c03Alphabet(lmtp bool) []string {
 		"DATA-CUT",
 		"DATA-LOOP",
 		"BDAT",
+		"BDAT-PART",
 		"RSET",
 		"NOOP",
 		"QUIT",
@@ -250,6 +251,11 @@ func c03Exec(c c03Case) (res c03Run) {
 	ended := false
 	utf8Txn := false // the MAIL command of the transaction in progress carried SMTPUTF8
 	cut := false // the client disconnected in the middle of the message data
+	// a non-final BDAT chunk was accepted and the message is not finished yet (go-smtp's
+	// chunk pipe is open); chunkDead: the session it belonged to was finished by a
+	// repeated greeting, which go-smtp does not treat as the end of the transfer
+	chunkPending, chunkDead := false, false
+	const chunkAt = len(c03Msg) / 2
 	var cutOpen map[string]bool
 	commitFault := strings.HasSuffix(c.World.Fault, ":commit") || strings.HasSuffix(c.World.Fault2, ":commit")
 	openBefore := func() map[string]bool {
@@ -311,17 +317,36 @@ func c03Exec(c c03Case) (res c03Run) {
 			} else {
 				reps = nil
 			}
-		case cmd == "BDAT" && !(mailOpen && len(txnRcpts) > 0):
+		case cmd == "BDAT-PART" && (chunkPending || !(mailOpen && len(txnRcpts) > 0)):
+			// one non-final chunk per message; without recipients as for BDAT below
+			res.skip = true
+			return res
+		case cmd == "BDAT-PART":
+			err = cl.write(fmt.Sprintf("BDAT %d\r\n%s", chunkAt, c03Msg[:chunkAt]))
+			res.replies = append(res.replies, "C: BDAT <n> (first half of the message)")
+			if err == nil {
+				rep, err = cl.read()
+				res.replies = append(res.replies, "S: "+rep.String())
+			}
+		case cmd == "BDAT" && !chunkPending && !(mailOpen && len(txnRcpts) > 0):
 			// go-smtp refuses BDAT without recipients but does not consume the
 			// chunk; a pipelining client would desynchronise. Not a transition.
 			res.skip = true
 			return res
 		case cmd == "BDAT":
-			err = cl.write(fmt.Sprintf("BDAT %d LAST\r\n%s", len(c03Msg), c03Msg))
+			rest := c03Msg
+			if chunkPending {
+				rest = c03Msg[chunkAt:]
+			}
+			err = cl.write(fmt.Sprintf("BDAT %d LAST\r\n%s", len(rest), rest))
 			res.replies = append(res.replies, "C: BDAT <n> LAST")
 			n := 1
 			if c.World.LMTP && mailOpen && len(txnRcpts) > 0 {
 				n = len(libRcpts)
+			}
+			if chunkDead {
+				// the transfer belongs to a finished session: one refusal for the chunk
+				n = 1
 			}
 			for i := 0; i < n && err == nil; i++ {
 				rep, err = cl.read()
@@ -382,6 +407,9 @@ func c03Exec(c c03Case) (res c03Run) {
 			if rep.Class() == 2 {
 				// go-smtp resets the transaction on a repeated greeting
 				mailOpen, txnRcpts = false, nil
+				if chunkPending {
+					chunkDead = true
+				}
 			}
 		case strings.HasPrefix(cmd, "MAIL"):
 			if rep.Class() == 2 {
@@ -397,6 +425,15 @@ func c03Exec(c c03Case) (res c03Run) {
 			}
 		case cmd == "RSET":
 			if rep.Class() == 2 {
+				mailOpen, txnRcpts, libRcpts = false, nil, nil
+				utf8Txn = false
+				chunkPending, chunkDead = false, false
+			}
+		case cmd == "BDAT-PART":
+			if rep.Class() == 2 {
+				chunkPending = true
+			} else if rep.Code != 0 {
+				// go-smtp resets the transaction when a chunk is refused
 				mailOpen, txnRcpts, libRcpts = false, nil, nil
 				utf8Txn = false
 			}
@@ -452,6 +489,7 @@ func c03Exec(c c03Case) (res c03Run) {
 				if len(reps) > 0 && reps[len(reps)-1].Code != 0 {
 					mailOpen, txnRcpts, libRcpts = false, nil, nil
 					utf8Txn = false
+					chunkPending, chunkDead = false, false
 				}
 			}
 		}
@@ -472,7 +510,7 @@ func c03Exec(c c03Case) (res c03Run) {
 	if !mailOpen {
 		mailArg = ""
 	}
-	parts = append(parts, fmt.Sprintf("mail=%v(%s) rcpts=%q lib=%q ended=%v", mailOpen, mailArg, txnRcpts, libRcpts, ended))
+	parts = append(parts, fmt.Sprintf("mail=%v(%s) rcpts=%q lib=%q ended=%v chunk=%v/%v", mailOpen, mailArg, txnRcpts, libRcpts, ended, chunkPending, chunkDead))
 	for _, t := range []*mon.Target{ehT1, ehT2} {
 		ds, _ := t.Snapshot()
 		closedC, closedA, failed := 0, 0, 0
@@ -598,7 +636,7 @@ func c03Worlds(thorough bool) []c03World {
 func TestVerifC03(t *testing.T) {
 	r := vx.Start("C03", "sessions")
 	defer r.Finish()
-	r.Rule("explicit-state BFS over SMTP/LMTP command sequences (20 commands: greeting, MAIL valid / upper-case / refused sender / malformed / non-ASCII sender without SMTPUTF8, RCPT to target 1 / target 2 / both / upper-case / refused / malformed, DATA, DATA cut off by a disconnect in the middle of the message, DATA with too many Received fields, BDAT LAST, RSET, NOOP, QUIT, disconnect) on the real endpoint (go-smtp server over a pipe, pipeline built from configuration, two monitored targets (atomic and per-recipient), scripted check, real limits with concurrency 2 in the all/ip/source scopes), per world = {SMTP, LMTP} x {deferred, immediate sender reject} x one persistent fault (none or Start/AddRcpt/Body/status/Commit/Abort of a target, a check reject at conn/sender/rcpt/body, or a modifier error at state creation / sender / recipient / body rewriting) x map iteration order; successor = fresh endpoint + replay of the history + one command; state = protocol mirror + typestate of every target delivery; invariants: target typestate (closed exactly once, no use after close), success reply => committed on every accepted recipient's target, failure before commit => nothing committed, at session end every delivery closed and every permit returned")
+	r.Rule("explicit-state BFS over SMTP/LMTP command sequences (21 commands: greeting, MAIL valid / upper-case / refused sender / malformed / non-ASCII sender without SMTPUTF8, RCPT to target 1 / target 2 / both / upper-case / refused / malformed, DATA, DATA cut off by a disconnect in the middle of the message, DATA with too many Received fields, BDAT LAST, a non-final BDAT chunk (first half of the message; BDAT LAST then sends the rest), RSET, NOOP, QUIT, disconnect) on the real endpoint (go-smtp server over a pipe, pipeline built from configuration, two monitored targets (atomic and per-recipient), scripted check, real limits with concurrency 2 in the all/ip/source scopes), per world = {SMTP, LMTP} x {deferred, immediate sender reject} x one persistent fault (none or Start/AddRcpt/Body/status/Commit/Abort of a target, a check reject at conn/sender/rcpt/body, or a modifier error at state creation / sender / recipient / body rewriting) x map iteration order; successor = fresh endpoint + replay of the history + one command; state = protocol mirror + typestate of every target delivery; invariants: target typestate (closed exactly once, no use after close), success reply => committed on every accepted recipient's target, failure before commit => nothing committed, at session end every delivery closed and every permit returned")
 	r.Assume("a second fault is only combined in the thorough tier; TLS, AUTH and proxy-protocol paths are not driven here (AUTH: C14)")
 	if rp := r.Replay(); rp != nil {
 		var c c03Case
